@@ -28,7 +28,12 @@ class FakeDatetimeModule:
         self.units = 0
         outer = self
 
-        class datetime(_dt.datetime):
+        class _Meta(type):
+            # the code under test may ask `isinstance(x, datetime.datetime)` through the rebound name
+            def __instancecheck__(cls, obj):
+                return isinstance(obj, _dt.datetime)
+
+        class datetime(_dt.datetime, metaclass=_Meta):
             @classmethod
             def now(cls, tz=None):
                 return BASE + _dt.timedelta(seconds=UNIT * outer.units)
